@@ -154,6 +154,12 @@ def addr_cases(r):
             base = mutate(r, base, b"[]:/.0123456789abcdef \x80")
         ops.append("sres " + hx(base))
         ops.append("ensure " + hx(base if r.chance(2, 3) else base.rsplit(b":", 1)[0]))
+    # strings whose first (or only) colon / bracket is their very first byte: code that looks at the byte BEFORE the colon or
+    # bracket then reads before the start of the string (the harness puts every string at the start of an exact-size block)
+    for base in (b":", b":80", b":]", b"::", b":[", b"]", b"]:", b"]:1", b"[", b"/", b":/x"):
+        if r.chance(1, 2):
+            ops.append("ensure " + hx(base))
+            ops.append("sres " + hx(base))
     return ops
 
 
